@@ -4,7 +4,7 @@ from ..suites import convert as S
 
 ID = "C17"
 SUITE = "convert"
-LEAN_TARGETS = ["TypedpyModel.Props.C17", "TypedpyModel.Audit.C17"]
+LEAN_TARGETS = ["TypedpyModel.Props.C17", "TypedpyModel.Props.C17Deser", "TypedpyModel.Audit.C17"]
 AUDIT = "C17"
 THEOREMS = [
     "Typedpy.C17.convert_version", "Typedpy.C17.convert_version_max", "Typedpy.C17.convert_version_keyed",
@@ -26,6 +26,8 @@ THEOREMS = [
     "Typedpy.C17.sites_copy_today", "Typedpy.C17.no_param_writes_today", "Typedpy.C17.nested_reads_input_today",
     "Typedpy.C17.convert_input_intact", "Typedpy.C17.convert_input_intact_today",
     "Typedpy.C17.step_input_intact_today", "Typedpy.C17.convert_result_disjoint", "Typedpy.C17.heap_examples",
+    "Typedpy.C17.versioned_deserialize_whole_path", "Typedpy.C17.versioned_deserialize_is_plain",
+    "Typedpy.C17.whole_path_example",
 ]
 RULE = ("histories of 0..5 (thorough 0..8) mappings over top-level keys a..e (+ rarely `version`) with Constant, Deleted, "
         "moves (plain and dotted paths, degenerate paths), nested `._mapper` entries (depth <= 2) over sub-documents and "
